@@ -82,6 +82,32 @@ Theorem c03_marshal_injective :
 Proof. exact marshal_injective. Qed.
 Print Assumptions c03_marshal_injective.
 
+(* type ids (computeMessageType = uuid, a hash H, of the PACKAGE-QUALIFIED type
+   name): ids identify types as far as qualified names do and H does not
+   collide; a registry table over types with such ids satisfies the hypothesis
+   [registered] of the value theorems, so every registered type arrives as
+   itself; a name function that identifies two types (bare names of namesakes
+   in different packages) gives them one id.  The harness registers two types
+   that differ in the package only and the checker demands distinct ids
+   (clause 10) and that each arrives as itself. *)
+Theorem c03_type_ids_injective : forall (T Name : Type) (qname : T -> Name) (H : Name -> bytes),
+  (forall t1 t2, qname t1 = qname t2 -> t1 = t2) ->
+  (forall n1 n2, H n1 = H n2 -> n1 = n2) ->
+  forall t1 t2, H (qname t1) = H (qname t2) -> t1 = t2.
+Proof. exact type_ids_injective. Qed.
+Print Assumptions c03_type_ids_injective.
+
+Theorem c03_type_ids_registered : forall (T : Type) (types : list T) (tid : T -> bytes),
+  (forall t1 t2, In t1 types -> In t2 types -> tid t1 = tid t2 -> t1 = t2) ->
+  forall t, In t types -> registry_of types tid (tid t) = Some t.
+Proof. exact (@registry_of_registered). Qed.
+Print Assumptions c03_type_ids_registered.
+
+Theorem c03_type_ids_bare_name_collide : forall (T Name : Type) (bare : T -> Name) (H : Name -> bytes) t1 t2,
+  bare t1 = bare t2 -> H (bare t1) = H (bare t2).
+Proof. exact type_ids_collide. Qed.
+Print Assumptions c03_type_ids_bare_name_collide.
+
 (* sent values arrive as equal values with their type id, in sending order,
    once each, whatever the segmentation *)
 Theorem c03_delivery :
